@@ -82,6 +82,7 @@ type Sched struct {
 	maxPre   int
 	active   bool
 	allSteps bool // preemption at every step, not only visible ones
+	onlyAt   string // if set: preemption only at steps whose description contains this
 	crashDone bool
 }
 
@@ -134,7 +135,7 @@ func (m *Machine) step(visible bool, what string) {
 			panic(threadKilled{})
 		}
 	}
-	if visible || s.allSteps {
+	if (visible || s.allSteps) && (s.onlyAt == "" || strings.Contains(what, s.onlyAt)) {
 		m.saveThreadCtx(me)
 		s.yield <- me
 		if <-me.resume == 1 {
